@@ -723,7 +723,15 @@ pub(crate) fn shape_w(directed: bool, multi: bool, s: u8, small: bool) -> Option
             vec![(2, 0, w1), (0, 2, w2)]
         }
         4 => vec![],
-        _ => vec![(1, 2, w1), (0, 1, w2), (2, 0, w3)],
+        5 => vec![(1, 2, w1), (0, 1, w2), (2, 0, w3)],
+        _ => {
+            // node 2 has the predecessors 0 and 1 and the successor 0: predecessor/successor chains
+            // with a duplicate that is not adjacent
+            if !directed && !multi {
+                return None;
+            }
+            vec![(0, 2, w1), (1, 2, w2), (2, 0, w3)]
+        }
     };
     Some(Shape { nodes, edges })
 }
